@@ -24,9 +24,9 @@ func init() {
 		Real: "real: all of kvql from /repo's working tree; simulated: storage engine, caller, model map",
 		NCases: func(tier string) int {
 			if tier == "thorough" {
-				return 160000
+				return 2000000
 			}
-			return 6000
+			return 40000
 		},
 		Gen:    genC11,
 		Run:    runC11,
